@@ -388,6 +388,29 @@ pub fn build_c17(quick: bool) -> Vec<Scenario> {
         }
         // back pressure: several socket buffers
         v.push(Scenario::new(p, "unix_backpressure", format!("unix.backpressure.CC.len12000.w{}", w), Arc::new(move |e| unix_stream(e, w, 'C', 'C', 12_000, 0, 4096, true, 1))));
+        if w == 2 {
+            // an fd belongs to the selector of worker fd % workers: with one more descriptor open, the writer's and the
+            // reader's sockets swap selectors, so that both "own worker" and "other worker" are covered for each side
+            v.push(Scenario::new(
+                p,
+                "unix_backpressure",
+                "unix.backpressure.CC.len12000.fdshift1.w2",
+                Arc::new(move |e| {
+                    let _ = unsafe { libc::dup(0) };
+                    unix_stream(e, 2, 'C', 'C', 12_000, 0, 4096, true, 1)
+                }),
+            ));
+            v.push(Scenario::new(p, "unix_backpressure", "unix.backpressure.TC.len12000.w2", Arc::new(move |e| unix_stream(e, 2, 'T', 'C', 12_000, 0, 4096, true, 1))));
+            v.push(Scenario::new(
+                p,
+                "unix_backpressure",
+                "unix.backpressure.TC.len12000.fdshift1.w2",
+                Arc::new(move |e| {
+                    let _ = unsafe { libc::dup(0) };
+                    unix_stream(e, 2, 'T', 'C', 12_000, 0, 4096, true, 1)
+                }),
+            ));
+        }
         v.push(Scenario::new(p, "unix_stream", format!("unix.2conn.CC.len5.w{}", w), Arc::new(move |e| unix_stream(e, w, 'C', 'C', 5, 0, 4, false, 2))));
         v.push(Scenario::new(p, "tcp", format!("tcp.CC.len7.buf3.w{}", w), Arc::new(move |e| tcp_loopback(e, w, 7, 0, 3, false))));
         // plain threads wait in std::thread::park, which may return spuriously
